@@ -47,7 +47,7 @@ type c10Case struct {
 }
 
 var c10Probes = []int{0, 1, 2, 9, 10, 11, 13, 32, 45, 46, 47, 48, 53, 57, 58, 64, 65, 70, 71, 75, 83, 90, 91, 92, 93, 94, 95, 96, 97, 102, 103, 107, 115, 122, 123, 127,
-	128, 133, 160, 170, 181, 199, 200, 201, 223, 233, 254, 255, 256, 304, 305, 383, 384, 452, 453, 454, 8490, 8491, 0xd7ff, 0xe000, 0xffff, 0x10000, 119070, 0x10fffe, 0x10ffff}
+	128, 133, 160, 170, 181, 199, 200, 201, 223, 233, 254, 255, 256, 304, 305, 383, 384, 452, 453, 454, 837, 921, 953, 8126, 8490, 8491, 8551, 8567, 9398, 9424, 0xd7ff, 0xe000, 0xffff, 0x10000, 119070, 0x10fffe, 0x10ffff}
 
 // the probe universe is closed under simple case folding, so that folded denotations can be evaluated on it
 func init() {
